@@ -859,6 +859,13 @@ func (rule *RuleExpression) checkMatrixExpression(expr *String) *ObjectType {
 	if !ok {
 		return NewEmptyObjectType()
 	}
+	// The type may be the type of a context (e.g. `matrix: ${{ inputs }}`). Work on a copy not to
+	// remove or add properties of the shared type.
+	props := make(map[string]ExprType, len(matTy.Props))
+	for n, p := range matTy.Props {
+		props[n] = p
+	}
+	matTy = &ObjectType{Props: props, Mapped: matTy.Mapped}
 
 	// Consider properties in include section elements since 'include' section adds matrix values
 	incTy, ok := matTy.Props["include"]
